@@ -157,8 +157,15 @@ def tokenizer_literals():
         if isinstance(node, ast.Compare) and isinstance(node.ops[0], ast.In) and isinstance(node.left, ast.Name) \
                 and node.left.id == 's' and isinstance(node.comparators[0], ast.Constant):
             classes.append(node.comparators[0].value)
-    if len(classes) != 5:
-        raise TranslatorError(f'_tokenize character classes changed: {classes}')
+    # pick the classes by role, not by position (other `s in '...'` tests may be added or removed around them)
+    def role(pred, what):
+        hits = [c for c in classes if pred(c)]
+        if len(hits) != 1:
+            raise TranslatorError(f'_tokenize: cannot identify the {what} character class among {classes}')
+        return hits[0]
+    classes = [role(lambda c: '=' in c and '#' in c, 'bond'), role(lambda c: '/' in c, 'up/down'),
+               role(lambda c: 'N' in c and 'O' in c, 'organic'), role(lambda c: 'c' in c and 'n' in c, 'aromatic'),
+               role(lambda c: set(c) == {'C', 'B'}, 'two-letter')]
     import importlib
     sm = importlib.import_module('chython.files.daylight.smarts')
     if sm.cx_radicals.pattern != CX_RADICALS:
